@@ -43,9 +43,25 @@
 #include <boost/msm/active_state_switching_policies.hpp>
 #include <boost/any.hpp>
 
+#ifdef VERIF_VISITABLE
+#include <boost/msm/back/args.hpp>
+#include <boost/ref.hpp>
+#endif
+
 namespace rt {
 
 namespace msm = boost::msm;
+
+#ifdef VERIF_VISITABLE
+// visitable polymorphic base for all generated states (visit_current_states / get_state_by_id of back, visitors of backmp11)
+struct Vis { std::string names; };
+struct VBase {
+    typedef boost::msm::back::args<void, Vis&> accept_sig;
+    virtual ~VBase() {}
+    virtual const char* rt_name() const { return "?"; }
+    void accept(Vis& v) const { v.names += rt_name(); v.names += ","; }
+};
+#endif
 
 #if CFG >= 5
 struct cfg_fpa_policy : msm::backmp11::favor_runtime_speed {
